@@ -250,8 +250,8 @@ Definition lost_guard (r : loutcome) : bool :=
 Definition no_check_lost (pcs : list (pc fmsg)) : bool :=
   forallb (fun p => match p with PDone r => lost_guard r | _ => true end) pcs.
 
-Lemma eff_class c r b inv resp :
-  shape (to_call c) r -> out_matches r b = true -> lost_guard r = true ->
+Lemma eff_class rw c r b inv resp :
+  shape (to_call_w rw c) r -> out_matches r b = true -> lost_guard r = true ->
   is_write_call c && negb (is_lost (mkH c inv resp b)) = in_wit_b r.
 Proof.
   intros S O G.
@@ -274,6 +274,7 @@ Proof.
 Qed.
 
 Section Forced.
+  Variable rw : option (list fld).
   Variable i : option idf.
   Variable vinit : option fmsg.
   Variable cinit : list (string * fmsg * Z).
@@ -283,8 +284,8 @@ Section Forced.
   Variable fv : option fmsg.
   Variable fc : list (string * fmsg).
 
-  Notation P := (map to_call prog).
-  Notation s := (f_run model_v0 i prog sched vinit cinit).
+  Notation P := (map (to_call_w rw) prog).
+  Notation s := (f_run_w rw model_v0 i prog sched vinit cinit).
   Notation n := (List.length prog).
   Notation hcs := (hc prog results sched).
   Notation wit := (st_wit s).
@@ -308,13 +309,13 @@ Section Forced.
 
   (* everything about thread t < n *)
   Lemma thread_facts t : (t < n)%nat ->
-    exists r b, nth_error prog t = Some (nth t prog dcall) /\ nth_error P t = Some (to_call (nth t prog dcall)) /\
+    exists r b, nth_error prog t = Some (nth t prog dcall) /\ nth_error P t = Some (to_call_w rw (nth t prog dcall)) /\
                 nth_error (st_pcs s) t = Some (PDone r) /\ nth_error results t = Some b /\ nth t results dout = b /\
-                out_matches r b = true /\ shape (to_call (nth t prog dcall)) r /\ lost_guard r = true /\ In t sched.
+                out_matches r b = true /\ shape (to_call_w rw (nth t prog dcall)) r /\ lost_guard r = true /\ In t sched.
   Proof.
     intros L.
     assert (E1 : nth_error prog t = Some (nth t prog dcall)) by (apply nth_error_nth'; exact L).
-    assert (E2 : nth_error P t = Some (to_call (nth t prog dcall))) by (apply map_nth_error; exact E1).
+    assert (E2 : nth_error P t = Some (to_call_w rw (nth t prog dcall))) by (apply map_nth_error; exact E1).
     destruct (nth_error (st_pcs s) t) as [p|] eqn:Q; [|apply nth_error_None in Q; rewrite len_pcs in Q; lia].
     pose proof Hdone as D. unfold all_done in D. rewrite forallb_forall in D.
     pose proof (D _ (nth_error_In _ _ Q)) as Dp. destruct p; try discriminate.
@@ -354,7 +355,7 @@ Section Forced.
   Proof.
     intros L. destruct (thread_facts _ L) as (r & b & E1 & E2 & Q & Hb & Hnb & Hm & Hs & Hg & Hin).
     assert (E : eff_t t = in_wit_b r).
-    { unfold eff_t, hc. simpl. rewrite Hnb. apply eff_class; assumption. }
+    { unfold eff_t, hc. simpl. rewrite Hnb. apply (eff_class rw); assumption. }
     rewrite E. pose proof (wit_of_thread _ _ L Q) as W. destruct (in_wit_b r).
     - destruct W as (k & W). split; [intros _|reflexivity].
       apply in_map_iff. exists (t, r, k). split; [reflexivity|].
@@ -462,15 +463,15 @@ Section Forced.
   Lemma replay_seq_ok : forall (w : list (nat * loutcome * nat)) vc vc',
     replay fmsg_eqb fzero fw_validate fw_merge fclock str_ltb (idfun_of i) P vc (map (@wit_tid fmsg) w) = (vc', map (@wit_out fmsg) w) ->
     (forall e, In e w -> good e) -> final_matches vc' fv fc = true ->
-    seq_ok i vc (map (fun e => hcs (wit_tid e)) w) fv fc.
+    seq_ok rw i vc (map (fun e => hcs (wit_tid e)) w) fv fc.
   Proof.
     induction w as [|e r IH]; intros vc vc' R G F.
     - simpl in R. inversion R; subst. exact F.
     - destruct (G e (or_introl eq_refl)) as (L & b & Hb & Hm).
       assert (E1 : nth_error prog (wit_tid e) = Some (nth (wit_tid e) prog dcall)) by (apply nth_error_nth'; exact L).
-      assert (E2 : nth_error P (wit_tid e) = Some (to_call (nth (wit_tid e) prog dcall))) by (apply map_nth_error; exact E1).
+      assert (E2 : nth_error P (wit_tid e) = Some (to_call_w rw (nth (wit_tid e) prog dcall))) by (apply map_nth_error; exact E1).
       simpl in R. rewrite E2 in R.
-      destruct (Lts.spec_call fmsg_eqb fzero fw_validate fw_merge fclock str_ltb (idfun_of i) vc (to_call (nth (wit_tid e) prog dcall)))
+      destruct (Lts.spec_call fmsg_eqb fzero fw_validate fw_merge fclock str_ltb (idfun_of i) vc (to_call_w rw (nth (wit_tid e) prog dcall)))
         as [vc1 o] eqn:S1.
       destruct (replay fmsg_eqb fzero fw_validate fw_merge fclock str_ltb (idfun_of i) P vc1 (map (@wit_tid fmsg) r)) as [vc2 os] eqn:R1.
       inversion R; subst.
@@ -479,7 +480,7 @@ Section Forced.
       + eapply IH; [rewrite R1; f_equal; assumption| |exact F]. intros e' He'. apply G. right. exact He'.
   Qed.
 
-  Theorem forced_ok : linearizable_b i vinit cinit (hist_of 0 prog results sched) fv fc = true.
+  Theorem forced_ok : linearizable_b rw i vinit cinit (hist_of 0 prog results sched) fv fc = true.
   Proof.
     apply linearizable_b_complete with (order := map (fun e => hcs (wit_tid e)) wit).
     - exact Hcodes.
@@ -553,10 +554,10 @@ Qed.
 Lemma threads_of_plain sched : threads_of (map SThread sched) = sched.
 Proof. induction sched as [|t r IH]; simpl; [reflexivity|]. f_equal. exact IH. Qed.
 
-Lemma f_lrun_plain v0 i prog sched vinit cinit : has_lossy prog = false ->
-  f_lrun v0 i prog sched vinit cinit = (f_run v0 i prog sched vinit cinit, []).
+Lemma f_lrun_plain rw v0 i prog sched vinit cinit : has_lossy prog = false ->
+  f_lrun_w rw v0 i prog sched vinit cinit = (f_run_w rw v0 i prog sched vinit cinit, []).
 Proof.
-  intros H. unfold f_lrun, f_lrun_gen, f_run, f_run_gen.
+  intros H. unfold f_lrun_w, f_lrun_gen_w, f_run_w, f_run_gen_w.
   rewrite (classify_plain prog H), threads_of_plain. cbv zeta.
   rewrite lrun_plain; [reflexivity|].
   intros t. unfold lossy_of_prog. pose proof (no_lossy_at prog t H) as X.
@@ -571,29 +572,29 @@ Qed.
        the checker rejects those outright, whatever the model says);
      - no check / validation of the run ITSELF answered Aborted (10) for a Set / Update or Unavailable (14)
        for a Delete: the checker reads these two codes as "lost a race, had no effect" and could not tell. *)
-Definition forced_guard_at (i : option idf) (vinit : option fmsg) (cinit : list (string * fmsg * Z))
+Definition forced_guard_at (rw : option (list fld)) (i : option idf) (vinit : option fmsg) (cinit : list (string * fmsg * Z))
            (prog : list fcall) (sched : list nat) (results : list fout) : bool :=
   negb (has_lossy prog) &&
   sorted_keys_b (keys (c_items (init_c cinit))) &&
   forallb allowed_code (filter (fun h => is_write_call (h_call h)) (hist_of 0 prog results sched)) &&
-  no_check_lost (st_pcs (f_run model_v0 i prog sched vinit cinit)).
+  no_check_lost (st_pcs (f_run_w rw model_v0 i prog sched vinit cinit)).
 
 Definition forced_guard (c : ccase) : bool :=
   match c with
-  | CaseSched i vinit cinit prog sched results _ _ _ _ _ => forced_guard_at i vinit cinit prog sched results
-  | CaseCfg _ i vinit cinit prog sched results _ _ _ _ _ => forced_guard_at i vinit cinit prog sched results
+  | CaseSched i vinit cinit prog sched results _ _ _ _ _ => forced_guard_at None i vinit cinit prog sched results
+  | CaseCfg cfg i vinit cinit prog sched results _ _ _ _ _ => forced_guard_at (cf_writable cfg) i vinit cinit prog sched results
   | _ => false
   end.
 
-Lemma agrees_sched_ok eq i vinit cinit prog sched results fv fc vs cs closed :
-  forced_guard_at i vinit cinit prog sched results = true ->
-  agrees_sched eq i vinit cinit prog sched results fv fc vs cs closed = true ->
-  linearizable_b i vinit cinit (hist_of 0 prog results sched) fv fc = true.
+Lemma agrees_sched_ok rw eq i vinit cinit prog sched results fv fc vs cs closed :
+  forced_guard_at rw i vinit cinit prog sched results = true ->
+  agrees_sched rw eq i vinit cinit prog sched results fv fc vs cs closed = true ->
+  linearizable_b rw i vinit cinit (hist_of 0 prog results sched) fv fc = true.
 Proof.
   unfold forced_guard_at. intros G A.
   apply andb_true_iff in G. destruct G as [G G4]. apply andb_true_iff in G. destruct G as [G G3].
   apply andb_true_iff in G. destruct G as [G1 G2]. apply negb_true_iff in G1.
-  unfold agrees_sched in A. rewrite (f_lrun_plain model_v0 i prog sched vinit cinit G1) in A.
+  unfold agrees_sched in A. rewrite (f_lrun_plain rw model_v0 i prog sched vinit cinit G1) in A.
   repeat (apply andb_true_iff in A; destruct A as [A ?]).
   apply forced_ok; try assumption.
   - apply sorted_keys_b_ok. exact G2.
